@@ -38,7 +38,7 @@ func normalizeInvoiceTax(inv *bill.Invoice) {
 	if tx.Ext.Has(ExtKeyRegion) {
 		return
 	}
-	if inv.Supplier == nil || len(inv.Supplier.Addresses) == 0 {
+	if inv.Supplier == nil || len(inv.Supplier.Addresses) == 0 || inv.Supplier.Addresses[0] == nil {
 		return
 	}
 	addr := inv.Supplier.Addresses[0]
